@@ -47,7 +47,37 @@ fn mix(state: &mut u64) -> u64 {
 /// A leaf with many ranges (20-140, bracketing the sizes at which sorting routines switch
 /// strategy): starts on a grid so that several ranges share a start, lengths short enough to
 /// leave holes, some empty or inverted.
+/// A leaf whose ranges all share an instant: copies of one range, ranges nested around a centre, or a staircase of
+/// equally long ranges starting a minute apart — 2 to 300 of them (bracketing 127/128, 255/256), so that the number
+/// of ranges open at once crosses the limits of the small integer types (S-C14-h counts them in an `i8`).
+fn gen_stacked_leaf(ch: &mut Choices) -> Leaf {
+    let n = [2u32, 3, 16, 64, 126, 127, 128, 129, 130, 200, 254, 255, 256, 257, 300][ch.draw(15) as usize];
+    let centre = 200 + ch.draw(1000);
+    let mut ranges = Vec::new();
+    match ch.draw(3) {
+        0 => {
+            let (a, b) = (centre - ch.draw(150), centre + 1 + ch.draw(150));
+            ranges.extend((0..n).map(|_| (a, b)));
+        }
+        1 => ranges.extend((0..n).map(|i| (centre.saturating_sub(1 + i / 2), (centre + 1 + (i + 1) / 2).min(1440)))),
+        _ => {
+            // depth = min(n, len): pick the length next to n
+            let len = (n + 3).saturating_sub(ch.draw(7)).max(1);
+            let start = centre.min(1440 - n.min(400) - len.min(400));
+            ranges.extend((0..n).map(|i| (start + i, (start + i + len).min(1440))));
+        }
+    }
+    if ch.chance(30) {
+        ranges.reverse();
+    }
+    let kind = ch.pick(&[RuleKind::Open, RuleKind::Closed, RuleKind::Unknown]);
+    Leaf { ranges, kind, comment: ch.pick(&[None, Some("a")]) }
+}
+
 fn gen_large_leaf(ch: &mut Choices) -> Leaf {
+    if ch.chance(30) {
+        return gen_stacked_leaf(ch);
+    }
     let n = [20u32, 31, 32, 33, 34, 40, 64, 65, 100, 140][ch.draw(10) as usize] + ch.draw(3);
     let grid = ch.pick(&[10u32, 40, 5, 1, 60, 15, 20]);
     let len_max = ch.pick(&[20u32, 5, 60, 100, 300, 8, 12]);
@@ -226,6 +256,17 @@ fn algebra(ch: &mut Choices, case: &mut Case) -> Result<(), String> {
             }
             if l.ranges.len() > 32 {
                 case.label("leaf_with_more_than_32_ranges");
+            }
+            if l.ranges.len() > 127 {
+                let mut depth = [0u16; 1441];
+                for (a, b) in &l.ranges {
+                    for m in *a..(*b).min(1440) {
+                        depth[m as usize] += 1;
+                    }
+                }
+                if depth.iter().any(|d| *d > 127) {
+                    case.label("more_than_127_ranges_open_at_once");
+                }
             }
             built.push((s, m, d));
         }
